@@ -213,7 +213,20 @@ pub fn judge(main_prop: &str, family: &str, prog: &Program, query: &T, rf: &RefR
                     _ => "wrong-answer",
                 };
                 v.push((main_prop.to_string(), cls(kind), format!("call {}: engine {} , reference {} — {}", i + 1, ans_text(&st.ans), ans_text(&r_ans), ctx())));
-                // one divergence is enough: later steps are shifted
+                // one divergence is enough: later steps are shifted.  But when the engine said
+                // "no more" too early, whatever it still answers afterwards is C05's business.
+                if st.ans.is_none() {
+                    for (k, later) in im.steps.iter().enumerate().skip(i + 1) {
+                        if later.ans.is_some() {
+                            v.push(("C05".to_string(), cls("answer-after-exhaustion"), format!("call {} reported 'no more', call {} returned {} — {}", i + 1, k + 1, ans_text(&later.ans), ctx())));
+                            break;
+                        }
+                        if !later.out.is_empty() {
+                            v.push(("C05".to_string(), cls("output-after-exhaustion"), format!("call {} reported 'no more', call {} wrote {:?} — {}", i + 1, k + 1, later.out, ctx())));
+                            break;
+                        }
+                    }
+                }
                 break;
             }
         }
